@@ -1,6 +1,31 @@
-(** C03 — placeholder: the codec round-trip theorems (immediate fitting, little-endian emission, ModRM/SIB reverse table) land in Asm.v. *)
-From Coq Require Import ZArith Lia.
+(** C03 — assemble/disassemble round trip is a fixpoint.  Property theorems only.
+    Proved here (codec layer): what the assembler emits for an immediate or displacement field reads back as the field value
+    (little-endian emission, signed and unsigned kinds); the reverse ModRM/SIB table is sound (C02) AND complete — every ModRM
+    byte with an empty reg field, with every SIB byte where one follows, is offered under the key of the address form it decodes
+    to, both with and without the operand-order memo — so the address bytes of every decodable instruction are among the
+    synthesised ones.  The fixpoint over whole lines is decided on the implementation (harness/p_c03.py). *)
+From Coq Require Import ZArith List Bool String.
+From Mx Require Import X86Types Asm AsmProofs AsmFacts.
+From MxGen Require Import X86Tables AsmTables.
+Import ListNotations.
 Open Scope Z_scope.
-Theorem C03_placeholder : forall v : Z, v mod 256 = v mod 256.
-Proof. reflexivity. Qed.
-Print Assumptions C03_placeholder.
+
+Theorem C03_field_emission_reads_back : forall k r, in_range k r -> read k (emit k r) = r.
+Proof. exact emit_read. Qed.
+Print Assumptions C03_field_emission_reads_back.
+
+Theorem C03_field_emission_length : forall k r, List.length (emit k r) = Z.to_nat (bits k / 8).
+Proof. exact emit_length. Qed.
+Print Assumptions C03_field_emission_length.
+
+Theorem C03_accepted_value_round_trips : forall v is16 k r,
+  check_imm_size v is16 k = Some r -> read k (emit k r) = r /\ r mod 2 ^ bits k = v mod 2 ^ bits k.
+Proof. exact check_emit_read. Qed.
+Print Assumptions C03_accepted_value_round_trips.
+
+Theorem C03_reverse_table_complete : forall m, In m modrm_bytes -> complete_at x86_tables fd_afs m = true.
+Proof. exact fd_afs_lists_every_modrm. Qed.
+Print Assumptions C03_reverse_table_complete.
+
+Example C03_nonvacuous : read S08 (emit S08 (-2)) = -2 /\ emit U32 305419896 = [120; 86; 52; 18] /\ List.length modrm_bytes = 32%nat.
+Proof. vm_compute. repeat split; reflexivity. Qed.
